@@ -242,6 +242,11 @@ func (store *Store) Truncate() error {
 	store.mut.Lock()
 	defer store.mut.Unlock()
 
+	// Skip operation if ReadWriter is not defined (no data directory configured).
+	if store.rw == nil {
+		return nil
+	}
+
 	if err := store.rw.Truncate(0); err != nil {
 		return fmt.Errorf("truncate: truncate error: %+v", err)
 	}
